@@ -2,8 +2,8 @@
    (password error before any output is opened), and the method-selection theorems: the crypt filter
    method the model of qpdf's reader undoes for a string / a stream is the method the ISO rule of
    IsoEnc.v prescribes. Lemmas named *_lemma become the theorems of Props/Properties_C06.v. *)
-From QV Require Import Base.Bytes Crypto.Nib Filters.Filters Crypto.MD5 Crypto.SHA2Fast Crypto.AES Crypto.AesPdf
-  Crypto.KeyDeriv Crypto.IsoRef Crypto.IsoEnc Crypto.DecReader.
+From QV Require Import Base.Bytes Crypto.Nib Filters.Filters Crypto.MD5 Crypto.SHA2Fast Crypto.AES Crypto.AesPdf.
+From QV Require Import Crypto.KeyDeriv Crypto.IsoRef Crypto.IsoEnc Crypto.DecReader.
 Local Open Scope N_scope.
 
 (* ------------------------------------------------------------------ exit codes *)
